@@ -264,6 +264,25 @@ func c18(c *core.Ctx, r *core.Report) {
 						b = nil
 					}
 				}
+				// shutdown duties deferred by the goroutine before it reached the select run on this exit as well
+				an.Instrs(sel.Parent(), func(in ssa.Instruction) {
+					d, isDefer := in.(*ssa.Defer)
+					if !isDefer || !an.Dominates(d, sel) {
+						return
+					}
+					chk := func(g *ssa.Function) {
+						if isTimeMethod(g, "Ticker", "Stop") {
+							stopsTicker = true
+						}
+						if isTimeMethod(g, "Timer", "Stop") {
+							stopsTimer = true
+						}
+					}
+					if t := an.Callee(d); t != nil {
+						chk(t)
+						an.ReachesCall(t, 2, func(g *ssa.Function) bool { chk(g); return false })
+					}
+				})
 				r.Check(stopsTicker && stopsTimer, key, pos, "Done arm stops ticker and timer and returns", "Done arm returns without stopping the ticker and the next-schedule timer")
 			}
 		}
